@@ -190,6 +190,12 @@ func (self *visitorUserNode) OnBool(v bool) error {
 		fieldDesc = top.state.fieldDesc
 	}
 
+	if fieldDesc.Kind() != proto.BoolKind {
+		return newError(meta.ErrDismatchType, "param isn't boolType", nil)
+	}
+	if fieldDesc.Type().IsList() && top.typ != arrStkType {
+		return newError(meta.ErrDismatchType, "repeated field needs an array", nil)
+	}
 	// packed list no need to write tag
 	if !fieldDesc.Type().IsList() {
 		if err = self.p.AppendTagByKind(fieldDesc.Number(), fieldDesc.Kind()); err != nil {
@@ -218,6 +224,9 @@ func (self *visitorUserNode) OnString(v string) error {
 	fieldDesc := self.globalFieldDesc
 	if fieldDesc == nil && top != nil && top.Type().IsList() {
 		fieldDesc = top
+	}
+	if fieldDesc.Type().IsList() && self.stk[self.sp].typ != arrStkType {
+		return newError(meta.ErrDismatchType, "repeated field needs an array", nil)
 	}
 
 	if err = self.p.AppendTagByKind(fieldDesc.Number(), fieldDesc.Kind()); err != nil {
@@ -260,6 +269,9 @@ func (self *visitorUserNode) OnInt64(v int64, n json.Number) error {
 		fieldDesc = top.state.fieldDesc
 	}
 
+	if fieldDesc.Type().IsList() && top.typ != arrStkType {
+		return newError(meta.ErrDismatchType, "repeated field needs an array", nil)
+	}
 	// packed list no need to write tag
 	if !fieldDesc.Type().IsList() {
 		if err = self.p.AppendTagByKind(fieldDesc.Number(), fieldDesc.Kind()); err != nil {
@@ -427,6 +439,12 @@ func (self *visitorUserNode) OnObjectBegin(capacity int) error {
 	}
 
 	if fieldDesc != nil {
+		if !fieldDesc.Type().IsMap() && fieldDesc.Kind() != proto.MessageKind {
+			return newError(meta.ErrDismatchType, "param isn't messageType", nil)
+		}
+		if fieldDesc.Type().IsList() && top.typ != arrStkType {
+			return newError(meta.ErrDismatchType, "repeated field needs an array", nil)
+		}
 		if fieldDesc.Type().IsMap() {
 			// case Map, push MapDesc
 			if err = self.push(true, false, false, fieldDesc, curNodeLenPos); err != nil {
